@@ -35,7 +35,7 @@ RULE = ("seeded HISTORIES on long-lived objects: two real StorageFarmBroker obje
         "foreign-signed / newly gained / renewed; FURL, NURLs and seed unchanged) and after every step the full order, the upload order, "
         "every upload_permitted() and update_goal are compared with the model evaluated on each server's LATEST announcement")
 TRUSTED = ["lean/Tahoe/StorageClient/Model.lean is a hand transcription of get_servers_for_psi and update_goal (sorted() modelled as stable insertion sort)",
-           "hashlib.sha1 (the model receives SHA-1(psi + permutation seed) from the harness, computed independently of hashutil.permute_server_hash)",
+           "hashlib.sha1 for the `psi` lines (digest handed to the model); the `psib` lines hand over storage index and seeds and the model computes SHA-1 itself (Tahoe/Base/Sha256.lean), so both are compared with hashutil.permute_server_hash through the code's own order",
            "the iteration order of the frozenset of connected servers is read back from get_connected_servers() (only matters for equal sort keys)"]
 ASSUMPTIONS = ["servers are added through StorageFarmBroker.test_add_rref / _make_storage_server (no Tub can be created in this sandbox: pyOpenSSL lacks X509Req), so connection management is not exercised",
                "the clock is allmydata.grid_manager.current_datetime_with_zone, replaced by a stepping clock for the duration of the run (the broker passes no now_fn, so this is the clock the verifiers read); certificates have no not-before field, so a server cannot become permitted later without a new announcement",
@@ -286,6 +286,15 @@ def run_case(ctx, case, workdir, lines, impl, cases, canon):
                 canon.append(False)
                 ctx.case((lines[-1], t) if nconn >= 2 else None)
                 ctx.count("psi:for_upload=%d" % fu)
+            # the same query with the SHA-1 computed by the model from storage index and permutation seeds
+            conn = [w.idx(s) for s in A.get_connected_servers()]
+            lines.append("psib %s %d %s %s" % (",".join(map(str, pref_ids(w))) or "-", 1 if fu else 0, psi.hex(), " ".join(
+                "%d:%d:%d:%s" % (i, 1 if case["servers"][i]["connected"] else 0, 1 if w.permitted(i, t) else 0, w.seeds[i].hex())
+                for i in conn + [j for j in range(n) if j not in conn])))
+            impl.append(",".join(map(str, outs[0])) or "-")
+            cases.append(dict(case, at={"step": si, "t": t, "for_upload": fu, "sha1": "model"}))
+            canon.append(False)
+            ctx.count("psib")
             monitor_psi(ctx, w, case, si, psi, fu, t, outs[0], outs[1])
         g = st["goal"]
         if g is None:
